@@ -169,6 +169,14 @@ def build_traces(path, tier, seed):
             k = int(rng.choice([49, 98, 103, 107, 161, 187]))
             dt = float(rng.choice([0.001, 0.002, 0.01]))
             target, n = round(dt * k, 7), k * int(rng.choice([4, 6, 7, 8, 12, 5, 9]))
+        elif i == nfou - 1:
+            # one LONG record whose length has a large prime factor (2 x 10007, 4 x 5003: not an FFT-friendly length), refined or decimated
+            mode = 5
+            dt = 0.01
+            if rng.integers(2):
+                target, n = dt / 2, 2 * 10007
+            else:
+                target, n = dt * 2, 4 * 5003
         elif mode == 0:
             target, n = dt, int(rng.integers(8, 120))
         elif mode == 1:
